@@ -488,6 +488,10 @@ func (ex *Exec) contractEnvTypes(con *Contract, fn *ssa.Function) (*Env, error) 
 	for i, n := range names {
 		env.vars[n] = Val{"0", GType{T: ptypes[i]}}
 	}
+	// closure free variables (types are all the syntactic analyses need)
+	for _, fv := range fn.FreeVars {
+		env.vars[fv.Name()] = Val{"cell:0", GType{T: fv.Type().(*types.Pointer).Elem()}}
+	}
 	return env, nil
 }
 
